@@ -215,9 +215,12 @@ static const char *cb_read_rule (const char ***rhs, const char **abs_node, int *
 /* Tokens, syntax errors, tracked tree memory.                          */
 #define ATTR_BASE 0x1000
 static int *tok_codes; static int n_toks, cur_tok;
+static int eof_value = -1;	/* what read_token returns at the end of input (any negative value ends it) */
+static int reads_after_end;	/* calls of read_token after it has signalled the end */
 static int cb_read_token (void **attr)
 {
-  if (cur_tok >= n_toks) { *attr = NULL; return -1; }
+  if (cur_tok > n_toks) reads_after_end++;
+  if (cur_tok >= n_toks) { *attr = NULL; cur_tok = n_toks + 1; return eof_value; }
   *attr = (void *) (uintptr_t) (ATTR_BASE + cur_tok);
   return tok_codes[cur_tok++];
 }
@@ -517,6 +520,14 @@ static void run_case (void)
 	  cur_dterm = cur_drule = 0;
 	  rc = G_READ (slots[s], strict, cb_read_terminal, cb_read_rule);
 	  scrub_handed ();
+	  for (i = 0; i < n_dterms; i++) free (dterms[i].name);
+	  for (i = 0; i < n_drules; i++)
+	    {
+	      free (drules[i].lhs);
+	      for (j = 0; j < drules[i].nrhs; j++) free (drules[i].rhs[j]);
+	      free (drules[i].rhs); free (drules[i].anode); free (drules[i].tr);
+	    }
+	  free (dterms); free (drules); dterms = NULL; drules = NULL;
 	  fprintf (out, "{\"op\":\"read\",\"rc\":%d,\"terms_read\":%d,\"rules_read\":%d,", rc, cur_dterm, cur_drule);
 	  print_err (slots[s]);
 	  fputc ('}', out);
@@ -540,12 +551,12 @@ static void run_case (void)
 	  n_toks = (int) next_int ();
 	  tok_codes = (int *) calloc (n_toks + 1, sizeof (int));
 	  for (i = 0; i < n_toks; i++) tok_codes[i] = (int) next_int ();
-	  cur_tok = 0; n_serrs = 0; n_free_log = 0;
+	  cur_tok = 0; n_serrs = 0; n_free_log = 0; reads_after_end = 0;
 	  cur_parse = n_parses;
 	  rc = G_PARSE (slots[s], cb_read_token, cb_syntax_error,
 			(mode == 0 || mode == 2) ? cb_parse_alloc : NULL,
 			(mode == 0 || mode == 3) ? cb_parse_free : NULL, &root, &amb);
-	  fprintf (out, "{\"op\":\"parse\",\"rc\":%d,\"amb\":%d,\"toks_read\":%d,\"errs\":[", rc, amb, cur_tok);
+	  fprintf (out, "{\"op\":\"parse\",\"rc\":%d,\"amb\":%d,\"toks_read\":%d,\"reads_after_end\":%d,\"errs\":[", rc, amb, cur_tok > n_toks ? n_toks : cur_tok, reads_after_end);
 	  for (i = 0; i < n_serrs; i++)
 	    fprintf (out, "%s[%d,%ld,%d,%ld,%d,%ld]", i ? "," : "", serrs[i].tok, serrs[i].attr,
 		     serrs[i].start, serrs[i].sattr, serrs[i].stop, serrs[i].eattr);
@@ -560,6 +571,11 @@ static void run_case (void)
 	  if (n_parses < MAX_PARSES)
 	    { roots[n_parses] = (root == (struct yaep_tree_node *) (uintptr_t) 0x77) ? NULL : root; root_mode[n_parses] = mode; n_parses++; }
 	  free (tok_codes); tok_codes = NULL;
+	}
+      else if (strcmp (t, "EOFVAL") == 0)
+	{
+	  eof_value = (int) next_int ();
+	  fprintf (out, "{\"op\":\"eofval\"}");
 	}
       else if (strcmp (t, "WALK") == 0)
 	{
@@ -637,7 +653,7 @@ static void reset_case_state (void)
   for (i = 0; i < MAX_SLOTS; i++) slots[i] = NULL;
   for (i = 0; i < MAX_PARSES; i++) roots[i] = NULL;
   n_parses = 0; n_blocks = 0; n_free_log = 0; n_serrs = 0; cur_parse = -1;
-  yv_fail_at = -1; yv_fail_seen = 0;
+  yv_fail_at = -1; yv_fail_seen = 0; eof_value = -1;
 }
 
 /* Print the kept diagnostic lines of a child's stderr.  */
